@@ -6,14 +6,14 @@ func c05n() int {
 	if vrt.Tier() == 0 {
 		return 17
 	}
-	return 24
+	return 19 // 24 was planned; 13+ symbolic body bytes already took 8 GB per worker
 }
 
 func c05body() int {
 	if vrt.Tier() == 0 {
 		return 11
 	}
-	return 16
+	return 12
 }
 
 // C05 — NewSCTE35 is total on every byte string up to the bound (structure symbolic too) and any
@@ -87,7 +87,7 @@ func c05desc() int {
 	if vrt.Tier() == 0 {
 		return 20
 	}
-	return 30
+	return 24
 }
 
 // one segmentation descriptor with arbitrary body bytes behind a well-formed section and
